@@ -67,6 +67,7 @@ type multiIdx struct {
 	name   string
 	ref    VClos // func(pk, value) (refKey, error)
 	unique bool
+	reverse bool // ReversePair: primary key Pair(K1,K2), reference key K2
 }
 
 type itemState struct {
@@ -356,6 +357,13 @@ func iterOf(v Value) *iterState {
 }
 
 func (ex *Exec) refKeyOf(fr *frame, cc *ssa.CallCommon, mi *multiIdx, e collEntry) Value {
+	if mi.reverse {
+		o, ok := e.key.(VOpaque)
+		if !ok || o.Kind != "tuple" || len(o.Data.([]Value)) != 2 {
+			panic(unsupported{"ReversePair index over a non-pair key"})
+		}
+		return o.Data.([]Value)[1]
+	}
 	r := ex.callFn(fr, cc, mi.ref.Fn, []Value{e.key, e.val}, mi.ref.Bind)
 	t := r.(VTuple)
 	if errOf(t[1]) != nil {
@@ -685,7 +693,7 @@ func init() {
 		m["cosmossdk.io/collections/indexes.NewMulti"] = newMulti(false)
 		m["cosmossdk.io/collections/indexes.NewUnique"] = newMulti(true)
 		m["cosmossdk.io/collections/indexes.NewReversePair"] = func(ex *Exec, fr *frame, cc *ssa.CallCommon, a []Value) Value {
-			return VPtr{O: ex.newObj(VOpaque{Kind: "multi", Data: &multiIdx{name: ex.describe(a[2]), unique: false}})}
+			return VPtr{O: ex.newObj(VOpaque{Kind: "multi", Data: &multiIdx{name: ex.describe(a[2]), unique: false, reverse: true}})}
 		}
 		m["cosmossdk.io/collections.NewIndexedMap"] = func(ex *Exec, fr *frame, cc *ssa.CallCommon, a []Value) Value {
 			cm := &collMap{name: ex.describe(a[2])}
@@ -985,6 +993,72 @@ func init() {
 			ex.sortEntries(hits, spec.descending)
 			return VTuple{VOpaque{Kind: "iter", Data: &iterState{entries: hits}}, nilErr()}
 		}
+		// IterateRaw over an index: [start, end) given as KeyCodec-encoded reference keys (kept structural, see
+		// KeyCodec.Encode); entries ordered by (reference key, primary key)
+		m[mu+"IterateRaw"] = func(ex *Exec, fr *frame, cc *ssa.CallCommon, a []Value) Value {
+			mi := multiOf(a[0])
+			if mi.parent == nil {
+				panic(unsupported{"index not linked to a map"})
+			}
+			bound := func(v Value) Value {
+				sl, ok := v.(VSlice)
+				if !ok || sl.O == nil {
+					return nil
+				}
+				k, ok := ex.rawKeys[sl.O]
+				if !ok {
+					panic(unsupported{"IterateRaw bound that was not produced by KeyCodec.Encode"})
+				}
+				return k
+			}
+			start, end := bound(a[2]), bound(a[3])
+			desc := !ti(a[4]).Const || ti(a[4]).I.Sign() != 0
+			if !ti(a[4]).Const {
+				panic(unsupported{"IterateRaw with a symbolic order"})
+			}
+			type hit struct {
+				ref Value
+				e   collEntry
+			}
+			var hits []hit
+			for _, e := range mi.parent.entries {
+				ref := ex.refKeyOf(fr, cc, mi, e)
+				in := BoolC(true)
+				if start != nil {
+					in = And(in, Not(ex.collKeyLess(ref, start)))
+				}
+				if end != nil {
+					in = And(in, ex.collKeyLess(ref, end))
+				}
+				if ex.decide(in) {
+					hits = append(hits, hit{ref, e})
+				}
+			}
+			// order by (ref, primary key)
+			for i := 1; i < len(hits); i++ {
+				for j := i; j > 0; j-- {
+					x, y := hits[j], hits[j-1]
+					if desc {
+						x, y = y, x
+					}
+					before := Or(ex.collKeyLess(x.ref, y.ref), And(ex.collKeyEq(x.ref, y.ref), ex.collKeyLess(x.e.key, y.e.key)))
+					if !ex.decide(before) {
+						break
+					}
+					hits[j], hits[j-1] = hits[j-1], hits[j]
+				}
+			}
+			out := make([]collEntry, len(hits))
+			for i, h := range hits {
+				pk := h.e.key
+				if mi.reverse {
+					pk = pk.(VOpaque).Data.([]Value)[0] // index key of a ReversePair: Pair(K2, K1)
+				}
+				out[i] = collEntry{key: mkTuple(h.ref, pk), val: h.ref}
+			}
+			return VTuple{VOpaque{Kind: "iter", Data: &iterState{entries: out}}, nilErr()}
+		}
+		m["(*cosmossdk.io/collections/indexes.ReversePair[K1, K2, Value]).IterateRaw"] = m[mu+"IterateRaw"]
 		collect := func(kv bool) intrinsic {
 			return func(ex *Exec, fr *frame, cc *ssa.CallCommon, a []Value) Value {
 				s := iterOf(a[2])
